@@ -640,6 +640,55 @@ def gen_bad_recursive_types(rng, builtin_path):
     return "\n".join(lines) + "\n"
 
 
+def gen_incomplete_matches(rng, builtin_path):
+    """Diagnostics that list a *set*: a comatch / match that omits at least two of the declared
+    destructors / constructors, or names at least two undeclared ones.  The listed names must come
+    out in one order in every process."""
+    greek = ["alpha", "beta", "gamma", "delta", "epsilon", "zeta", "eta", "theta", "iota"]
+    count = rng.range(3, 8)
+    names = greek[:]
+    rng.shuffle(names)
+    names = [f"{n}{rng.range(0, 9)}" for n in names[:count]]
+    kept = rng.range(0, count - 2)
+    supplied = names[:]
+    rng.shuffle(supplied)
+    supplied = supplied[:kept]
+    extra = []
+    shape = rng.below(4)
+    if shape >= 2:
+        extra = [f"extra{rng.range(0, 9)}{i}" for i in range(rng.range(2, 4))]
+    lines = ["begin", f'  param ((/core; /system) : @(import("{builtin_path}"))) that',
+             "  let (/VType; /CType; /Thk; /Ret; /Unit) = core that", "  let (/process) = system that"]
+    if shape % 2 == 0:
+        lines.append("  let Choice =")
+        lines.append("    codata")
+        lines += [f"    | .{n} : Ret Unit" for n in names]
+        lines.append("    end")
+        lines.append("  that")
+        arms = [f"  | .{n} => ret ()" for n in supplied + extra]
+        rng.shuffle(arms)
+        lines.append("  let choice : Thk Choice = {")
+        lines.append("  comatch")
+        lines += arms
+        lines.append("  end } that")
+    else:
+        lines.append("  let Shape =")
+        lines.append("    data")
+        lines += [f"    | +{n.capitalize()} : Unit" for n in names]
+        lines.append("    end")
+        lines.append("  that")
+        arms = [f"    | +{n.capitalize()}(_) => ret ()" for n in supplied + extra]
+        rng.shuffle(arms)
+        lines.append("  def ! inspect (shape : Shape) : Ret Unit =")
+        lines.append("    match shape")
+        lines += arms
+        lines.append("    end")
+        lines.append("  that")
+    lines.append("  ! (process/exit) 0")
+    lines.append("end")
+    return "\n".join(lines) + "\n"
+
+
 def write_block_corpus(tree, seed, count):
     """Extra corpus for C16: one shuffled rendering of `count` generated programs."""
     directory = os.path.join(tree, "lib", "zygen")
@@ -692,6 +741,12 @@ def write_block_corpus(tree, seed, count):
         rel = os.path.join("lib", "zygen", f"rectypes{index}.zy")
         with open(os.path.join(tree, rel), "w") as handle:
             handle.write(gen_bad_recursive_types(rng, builtin))
+        written.append(rel)
+    for index in range(max(8, count // 2)):
+        rng = Rng(mix(seed, ENGINE, 10000 + index))
+        rel = os.path.join("lib", "zygen", f"arms{index}.zy")
+        with open(os.path.join(tree, rel), "w") as handle:
+            handle.write(gen_incomplete_matches(rng, builtin))
         written.append(rel)
     for index in range(max(4, count // 4)):
         rng = Rng(mix(seed, ENGINE, 3000 + index))
